@@ -7,6 +7,11 @@
 //                                    between "B i" and "R i" belongs to vector i)
 //   R <idx> <n> v0 v1 ...           (n numbers printed with %.17g)
 //   E <idx> <message>               (the kernel threw)
+//   X <idx> <wait status>           (fork mode only: the child running vector idx died)
+//
+// Third command line argument 1 = fork mode: every vector runs in a forked child, so a
+// sanitizer abort costs a fork instead of a restart of the driver (the Python side
+// switches to it when aborts are frequent).
 //
 // stderr is redirected into stdout so that sanitizer reports appear in sequence.
 // Every input buffer is a separate heap allocation of the exact size, so that
@@ -19,6 +24,7 @@
 #include <cstdlib>
 #include <cstring>
 #include <string>
+#include <sys/wait.h>
 #include <unistd.h>
 #include <vector>
 
@@ -95,6 +101,31 @@ inline void print_error(long idx, const std::string &msg)
 {
     printf("E %ld %s\n", idx, msg.c_str());
     fflush(stdout);
+}
+
+template <typename F>
+inline void guarded(long idx, bool fork_mode, F body)
+{
+    mark_begin(idx);
+    if (!fork_mode)
+    {
+        body();
+        return;
+    }
+    pid_t pid = fork();
+    if (pid == 0)
+    {
+        body();
+        fflush(stdout);
+        _exit(0);
+    }
+    int status = 0;
+    waitpid(pid, &status, 0);
+    if (status != 0)
+    {
+        printf("X %ld %d\n", idx, status);
+        fflush(stdout);
+    }
 }
 
 #endif
